@@ -4,7 +4,8 @@
    called, and again whenever an ACKNACK has been accepted; `npend s` counts the parked callers;
    `delivered s`: the reliable matched reader (if it still exists) has been given every change the
    writer holds and that is relevant for it. *)
-From DustDDS Require Import Base.Machine Proto.RelModel Proto.RelProofs Proto.RelSound Proto.RelSoundG Proto.RelLive Proto.RelAck Proto.RelAckH Proto.RelWitness.
+From DustDDS Require Import Base.Machine Proto.RelModel Proto.RelProofs Proto.RelSound Proto.RelSoundG Proto.RelLive Proto.RelAck Proto.RelAckH Proto.RelWitness
+  Proto.MultiModel Proto.MultiProofs.
 Open Scope Z_scope.
 
 (* SOUNDNESS, unbounded: every configuration (KEEP_ALL or KEEP_LAST, any number of instances, any
@@ -54,6 +55,48 @@ Theorem C03_wfa_completes_partial :
       ackd s2 = true /\ npend s2 = 0%nat.
 Proof. exact wfa_completes_holes. Qed.
 
+(* SEVERAL READERS AND WRITERS.  Proto/MultiModel.v: W RELIABLE KEEP_ALL writers of one publisher, R RELIABLE
+   readers in participants of their own; the model is the product of single-pair machines plus what the pairs
+   share (one datagram queue, the wait list of every writer - its test ranges over ALL reader proxies of the
+   writer -, the sample cache of every reader).  `mackd w` = the test of wait_for_acknowledgments of writer w,
+   `mdelivered w` = every reader matched with w has been given every change w holds that is relevant for it,
+   `mnpend w` = callers of writer w still parked. *)
+
+(* PROJECTION: in every state the product can reach, the state of every (writer, reader) pair is a state the
+   single-pair model can reach: everything proved above for one pair holds for every pair *)
+Theorem C03_pairs_are_single_runs :
+  forall cf nw nr sched p,
+    In p (m_pairs (mrun cf (minit nw nr) sched)) -> exists sched', pr_st p = run cf init sched'.
+Proof. exact pairs_are_single_runs. Qed.
+
+(* SOUNDNESS for any number of matched readers, every schedule (per-reader loss, delay, reordering, late joiners):
+   whenever the test of writer w succeeds, EVERY reader matched with w has been given everything relevant *)
+Theorem C03_wfa_sound_all_readers :
+  forall cf nw nr sched w,
+    let ms := mrun cf (minit nw nr) sched in mackd w ms = true -> mdelivered w ms.
+Proof. exact mwfa_sound. Qed.
+
+(* ... and a parked caller of writer w is only answered - while the ACKNACK of ONE reader is processed - when at the
+   end of that step EVERY reader matched with w has been given everything relevant *)
+Theorem C03_wfa_sound_all_readers_notified :
+  forall cf nw nr sched a w,
+    let ms := mrun cf (minit nw nr) sched in let ms' := fst (mstep cf ms a) in
+    (mnpend w ms' < mnpend w ms)%nat -> mdelivered w ms'.
+Proof. exact mwfa_sound_answered. Qed.
+
+(* non-vacuity: two readers, the DATA for reader 0 is lost, reader 1 receives and acknowledges: the caller stays
+   parked; one healing round later reader 0 has the sample too and the caller is answered *)
+Example C03_nonvacuous_two_readers :
+  let cf := mkCfg 1344 true false 0 in
+  let l := [MMatch 0 false; MMatch 1 false; MWrite 0 1 24 11; MWfa 0; MDrop 0; MDeliver 0; MDeliver 0] in
+  let ms1 := mrun cf (minit 1 2) l in
+  let ms2 := mrun cf (minit 1 2) (l ++ [MTick; MTick; MTick; MTick; MTick; MPump]) in
+  (mnpend 0 ms1 = 1%nat /\ mackd 0 ms1 = false /\ m_rcache ms1 = [[]; [mkCh 1 1 24 11]] /\
+   snd (mstep cf ms1 MWfaPoll) = MOPoll [1]) /\
+  (mnpend 0 ms2 = 0%nat /\ mackd 0 ms2 = true /\ m_rcache ms2 = [[mkCh 1 1 24 11]; [mkCh 1 1 24 11]] /\
+   snd (mstep cf ms2 MWfaPoll) = MOPoll [0]).
+Proof. vm_compute. repeat split; reflexivity. Qed.
+
 (* the schedules that exposed C03-stale-waiter, on the repaired code (replayed on the real stack by the corpus) *)
 Theorem C03_stale_waiter_repaired_reader :
   let s0 := run cf_plain init [AMatch true false; AWrite 1 24 11; ADrop 0; AWfa] in
@@ -81,5 +124,8 @@ Print Assumptions C03_wfa_sound_notified.
 Print Assumptions C03_wfa_no_stale_waiter.
 Print Assumptions C03_wfa_completes_after_deletion.
 Print Assumptions C03_wfa_completes_partial.
+Print Assumptions C03_pairs_are_single_runs.
+Print Assumptions C03_wfa_sound_all_readers.
+Print Assumptions C03_wfa_sound_all_readers_notified.
 Print Assumptions C03_stale_waiter_repaired_reader.
 Print Assumptions C03_stale_waiter_repaired_participant.
